@@ -528,6 +528,9 @@ pub fn generate(profile: &str, variant: &str, seed: u64, index: u64) -> SimScena
             if rng.chance(1, 25) {
                 pol.fail_mprotect = vec![rng.below(3)]; // ordinal of the install whose mprotect is refused
                 classes.push("k-mprotect-fail".into());
+            } else if rng.chance(1, 25) {
+                pol.fail_mprotect = vec![1000 + rng.below(3)]; // ... whose pages can never be made writable
+                classes.push("k-mprotect-deny-page".into());
             }
             let l = gen_layout(&mut rng, arch, os, &pol, &opts);
             let near = predict_jit(&l, arch, os, ps, pol.mmap_min_addr);
